@@ -84,6 +84,23 @@ pub fn judge(ctx: &mut Ctx, b: &[u8], what: &str) {
             }
             ctx.rep.count("forward_agreements");
             ctx.rep.distinct(Fp::new().bytes(b).u(1).0);
+            // the same bytes under a derived segmentation (2-5 cuts): the agreement must not depend on the read split
+            if b.len() >= 4 {
+                let mut rng = crate::util::Rng::new(Fp::new().bytes(b).0);
+                let cuts = crate::gen::random_cuts(&mut rng, b.len(), 5);
+                if !cuts.is_empty() {
+                    let o2 = run_stream(Some(NO_LIMIT), b, &cuts, Gap::None, false);
+                    ctx.rep.count("forward_agreements_segmented");
+                    if o2.fault.is_some() || o2.delivered.first() != Some(r1) {
+                        ctx.rep.violation(
+                            "C14:oneshot-accepts-connection-differs",
+                            format!("[{}] one-shot parser returned {:?}; connection fed the same bytes cut at {:?}: first={:?} error={:?} fault={:?}", what, r1, cuts, o2.delivered.first(), o2.error, o2.fault),
+                            J::obj(vec![("engine", J::s("scripted-stream+one-shot")), ("what", J::s(what)), ("direction", J::s("->segmented")), ("slice_hex", J::hexs(b)), ("slice_show", J::s(&show(b))), ("cuts", J::Arr(cuts.iter().map(|c| J::u(*c as u64)).collect()))]),
+                        );
+                        return;
+                    }
+                }
+            }
         }
     }
     // ---------------- (<-) connection delivers exactly one request with nothing left over
